@@ -22,7 +22,8 @@
 #
 # Environment: VF_REPO_DIR (tree under test, default /repo), VF_OUT_DIR (where replays/
 # lives, default /verif), VF_FUZZ_JOBS (default nproc), VF_FUZZ_SANITIZER (default none),
-# VF_FUZZ_TARGET_DIR (default <harness-dir>/fuzz/target), VF_FUZZ_KEEP_CORPUS=1 (do not
+# VF_FUZZ_TARGET_DIR (default <harness-dir>/fuzz/target), VF_FUZZ_CODEGEN_UNITS (default:
+# cargo-fuzz's 1; 16 builds faster, runs a little slower), VF_FUZZ_KEEP_CORPUS=1 (do not
 # wipe the evolved corpus of a previous run).
 set -u
 if [ $# -lt 7 ]; then
@@ -47,7 +48,8 @@ export CARGO_NET_OFFLINE=true
 export RUSTFLAGS="--cfg googlefonts_fontations_verif"
 t0=$(date +%s)
 blog=$(mktemp /tmp/vf-fuzz-build.XXXXXX)
-cargo +nightly fuzz build -O -a -s "$san" --no-cfg-fuzzing --target-dir "$tdir" "$target" > "$blog" 2>&1
+# shellcheck disable=SC2086
+cargo +nightly fuzz build -O -a -s "$san" --no-cfg-fuzzing ${VF_FUZZ_CODEGEN_UNITS:+--codegen-units $VF_FUZZ_CODEGEN_UNITS} --target-dir "$tdir" "$target" > "$blog" 2>&1
 rc=$?
 if [ "$rc" -ne 0 ]; then
   grep -v '^warning: unused\|^ *= note\|^help: ' "$blog" | tail -n 60
@@ -100,7 +102,16 @@ grep -E '^INFO: (fuzzed for|exiting)' "$log" | tail -n 2
 echo "stage_fuzz: $target libFuzzer exit=$frc after ${run_s}s" >&2
 
 python3 - "$target" "$pid" "$out" "$tier" "$seed" "$bin" "$corpus" "$art" "$side" "$log" "$outdir" "$frc" "$run_s" "$build_s" "$jobs" "$seconds" "$san" <<'PYEOF'
-import json, os, re, resource, shutil, subprocess, sys, time
+import json, os, re, resource, shutil, subprocess, sys, time, traceback
+
+
+def _excepthook(tp, v, tb):
+    traceback.print_exception(tp, v, tb)
+    sys.stderr.flush()
+    os._exit(3)
+
+
+sys.excepthook = _excepthook
 
 (target, pid, out, tier, seed, binp, corpus, art, side, log, outdir, frc, run_s, build_s, jobs, seconds, san) = sys.argv[1:18]
 frc, run_s, build_s, jobs, seconds = int(frc), int(run_s), int(build_s), int(jobs), int(seconds)
@@ -162,6 +173,10 @@ for fn, fp in units:
     else:
         new_units.append((fn, fp, len(b), b[:32]))
 ntpath = re.sub(r"\.json$", "", out) + ".nt.bin"
+try:
+    os.makedirs(os.path.dirname(os.path.abspath(out)), exist_ok=True)
+except OSError as e:
+    tool_failure("cannot create the directory of %s: %s" % (out, e))
 with open(ntpath, "wb") as f:
     for d in sorted(digests):
         f.write(d.to_bytes(8, "little"))
@@ -351,4 +366,6 @@ print("stage_fuzz: %s %s executed=%d (%.0f/s) corpus=%d (+%d new) cov=%d crashes
     target, pid, execs, execs / max(1, run_s), len(units), len(new_units), cov, len(crashes), len(timeouts), len(ooms), len(violations), len(known_hits), len(inconclusive)))
 sys.exit(1 if violations else 0)
 PYEOF
-exit $?
+prc=$?
+# 0 / 1 / 2 are the script's own verdicts; anything else (an uncaught exception) is a tool failure
+case "$prc" in 0|1|2) exit "$prc" ;; *) echo "stage_fuzz: post-processing failed (rc=$prc): tool error" >&2; exit 2 ;; esac
